@@ -1,10 +1,49 @@
+import CBV.Model.C01
+import CBV.Model.C02
+import CBV.Model.C03
+import CBV.Model.C04
+import CBV.Model.C05
+import CBV.Model.C06
+import CBV.Model.C07
+import CBV.Model.C08
+import CBV.Model.C09
 import CBV.Model.C10
+import CBV.Model.C11
+import CBV.Model.C12
+import CBV.Model.C13
+import CBV.Model.C14
+import CBV.Model.C15
+import CBV.Model.C16
+import CBV.Model.C17
+import CBV.Model.C18
+import CBV.Model.C19
+import CBV.Model.C20
 
 namespace CBV
 
-/-- Routes a request to the model that owns the prefix. -/
+/-- Routes a request `cNN.xxx` to the model of property CNN. -/
 def dispatch (op : String) (args : List String) : Option String :=
-  if op.startsWith "c10." then C10.handle op args
-  else none
+  match (op.splitOn ".").head? with
+  | some "c01" => C01.handle op args
+  | some "c02" => C02.handle op args
+  | some "c03" => C03.handle op args
+  | some "c04" => C04.handle op args
+  | some "c05" => C05.handle op args
+  | some "c06" => C06.handle op args
+  | some "c07" => C07.handle op args
+  | some "c08" => C08.handle op args
+  | some "c09" => C09.handle op args
+  | some "c10" => C10.handle op args
+  | some "c11" => C11.handle op args
+  | some "c12" => C12.handle op args
+  | some "c13" => C13.handle op args
+  | some "c14" => C14.handle op args
+  | some "c15" => C15.handle op args
+  | some "c16" => C16.handle op args
+  | some "c17" => C17.handle op args
+  | some "c18" => C18.handle op args
+  | some "c19" => C19.handle op args
+  | some "c20" => C20.handle op args
+  | _ => none
 
 end CBV
